@@ -14,7 +14,7 @@ import time
 
 from vlib import core
 
-BINS = [b for b in ["h_justice"] if os.path.exists(os.path.join(core.HARNESS, "src", "bin", b + ".rs"))]
+BINS = [b for b in ["h_justice", "h_filterblock"] if os.path.exists(os.path.join(core.HARNESS, "src", "bin", b + ".rs"))]
 LEVEL = "proof"
 MANIFEST = {
     "category": "proof",
@@ -44,6 +44,111 @@ Definition run_case (cs : list ccommit) (n : nat) (k ctxid : Z) (tx : ctx) (S : 
   | None => None
   end.
 """
+
+
+# ---- filter_block: generated blocks, real monitor vs Model/Justice.v
+FB_PRELUDE = """
+Open Scope Z_scope.
+Definition fb (watched : list (Z * Z)) (txs : list stx) : list Z := map s_txid (filter_block watched [] txs).
+"""
+
+
+def filter_cases(rng, nw, tier):
+    cases = []
+    n = 300 if tier == "quick" else 6000
+    for c in range(n):
+        ntx = rng.range(1, 7)
+        txs = []
+        for pos in range(ntx):
+            nin = rng.range(1, 4)
+            ins = []
+            for _ in range(nin):
+                k = rng.below(10)
+                if k < 2:
+                    ins.append(("w", rng.below(nw)))
+                elif k == 2:
+                    ins.append(("x", rng.below(nw)))
+                elif k < 6 and pos > 0:
+                    ins.append(("t", rng.below(pos), rng.below(3)))
+                else:
+                    ins.append(("r", rng.below(50)))
+            txs.append((rng.range(1, 3), ins))
+        cases.append(txs)
+    # the shapes the property cares about: commitment first, children with the spending input at every position
+    for posn in range(3):
+        for extra in range(3):
+            ins = [("r", 40 + i) for i in range(3)]
+            ins[posn] = ("t", 0, 1)
+            cases.append([(3, [("w", 0)]), (2, ins[:1 + max(posn, extra)])])
+    return cases
+
+
+def filter_corr(ctx, model_ok):
+    rc, lines = ctx.run_bin("h_filterblock", "", timeout=300)
+    wl = [l for l in lines if l.startswith("W")]
+    if rc != 0 or not wl:
+        ctx.violation("harness h_filterblock crashed", {"broken": "correspondence:h_filterblock", "rc": rc}, False)
+        return None
+    watched = [tuple(int(x) for x in t.split(":")) for t in wl[0].split()[1:]]
+    rng = ctx.rng.fork("filterblock")
+    cases = filter_cases(rng, len(watched), ctx.tier)
+
+    def tok(i):
+        return {"w": "w%d", "x": "x%d", "r": "r%d"}.get(i[0], "t%d.%d") % tuple(i[1:])
+    inp = "\n".join("c%d %s" % (ci, "|".join("%d:%s" % (no, ",".join(tok(i) for i in ins)) for no, ins in txs)) for ci, txs in enumerate(cases)) + "\n"
+    rc, lines = ctx.run_bin("h_filterblock", inp, timeout=600)
+    res = {}
+    for l in lines:
+        if l.startswith("c") and " " in l or (l.startswith("c") and l[1:].strip().isdigit()):
+            parts = l.split(" ", 1)
+            res[int(parts[0][1:])] = [int(x) for x in parts[1].split(",") if x.strip() != ""] if len(parts) > 1 else []
+    if rc != 0 or len(res) != len(cases):
+        ctx.violation("harness h_filterblock did not answer every case", {"broken": "correspondence:h_filterblock", "rc": rc, "n": len(res)}, False)
+        return None
+    dis = []
+    ctx.coverage["filter_block_cases"] = len(cases)
+    ctx.coverage["filter_block_kept_histogram"] = {}
+    for ci in res:
+        k = str(len(res[ci]))
+        ctx.coverage["filter_block_kept_histogram"][k] = ctx.coverage["filter_block_kept_histogram"].get(k, 0) + 1
+    # judge on the implementation: a transaction with ANY input spending a watched outpoint or an output of
+    # an earlier kept transaction must be kept
+    jf = []
+    for ci, txs in enumerate(cases):
+        kept = set(res[ci])
+        for pos, (no, ins) in enumerate(txs):
+            should = any(i[0] == "w" or (i[0] == "t" and i[1] in kept) for i in ins)
+            if should and pos not in kept:
+                jf.append({"why": "the block filter drops a transaction one of whose inputs spends a watched output or an output of a transaction matched earlier in the block", "case": txs, "position": pos, "kept": sorted(kept)})
+                break
+    if model_ok:
+        exprs = []
+        wcoq = "[" + "; ".join("(%d, %d)" % (900 + t, v) for t, v in watched) + "]"
+        for ci, txs in enumerate(cases):
+            ts = []
+            for pos, (no, ins) in enumerate(txs):
+                its = []
+                for i in ins:
+                    if i[0] == "w":
+                        its.append("(%d, %d, 0)" % (900 + watched[i[1]][0], watched[i[1]][1]))
+                    elif i[0] == "x":
+                        its.append("(%d, %d, 0)" % (900 + watched[i[1]][0], 1000 + watched[i[1]][1]))
+                    elif i[0] == "t":
+                        its.append("(%d, %d, 0)" % (i[1], i[2]))
+                    else:
+                        its.append("(%d, %d, 0)" % (5000 + i[1], i[1]))
+                ts.append("mkStx %d [%s] %d" % (pos, "; ".join(its), no))
+            exprs.append("fb %s [%s]" % (wcoq, "; ".join(ts)))
+        B = 100
+        batched = ["[" + "; ".join(exprs[i:i + B]) + "]" for i in range(0, len(exprs), B)]
+        vals = ctx.coq_eval("corr_filterblock", ["LdkV.Prim.U64", "LdkV.Model.Shachain", "LdkV.Model.Justice"], batched, prelude=FB_PRELUDE, shards=min(8, len(batched)))
+        model = []
+        for v in vals:
+            model += json.loads(v.replace(";", ","))
+        for ci, (a, b) in enumerate(zip(model, [res[i] for i in range(len(cases))])):
+            if a != b:
+                dis.append({"topic": "filter_block", "case": cases[ci], "model": a, "impl": b})
+    return {"disagreements": dis, "judge_fails": jf}
 
 
 def zl(z):
@@ -197,14 +302,29 @@ def parse_opt_pairs(v):
     return json.loads(body.replace(";", ",").replace("(", "[").replace(")", "]"))
 
 
+def generate(ctx):
+    from vlib import gen
+    metas, errors = gen.regen(ctx, ["Package", "Consts"])
+    if errors:
+        raise RuntimeError("rs2v refused: %s" % errors)
+    return metas
+
+
 def run(ctx):
     ok_build, out = ctx.build_harness(BINS)
     if not ok_build or not BINS:
         ctx.violation("harness does not build against the current tree", {"broken": "harness-build", "log_tail": out[-3000:]}, False)
         ctx.write_evidence(LEVEL)
         return
+    gen_err = None
+    try:
+        generate(ctx)
+    except Exception as ex:
+        gen_err = str(ex)
+        ctx.obligations.append(("rs2v-generation(Package)", False, gen_err))
+    ctx.coverage["translated_items"] = getattr(ctx, "gen_meta", [])
     okm, outm = ctx.coq_make(["Model/Shachain.vo", "Model/Justice.vo", "Crypto/Sha256.vo"])
-    proved = ctx.prove("C06")
+    proved = ctx.prove("C06") and gen_err is None
     ctx.trusted_base += [
         "Coq 8.16.1 kernel + vm_compute",
         "Model/Justice.v: hand transliteration of provide_latest_counterparty_commitment_tx / provide_secret / check_spend_counterparty_transaction (revoked branch) / check_spend_counterparty_htlc; claim tracking abstracted to the set of outpoints",
@@ -218,6 +338,9 @@ def run(ctx):
     broken = []
     if not proved:
         broken.append({"obligation": "Coq proof of Props/C06.v", "detail": getattr(ctx, "proof_failure", {})})
+    fres = filter_corr(ctx, okm) if "h_filterblock" in BINS else None
+    if fres and fres["disagreements"]:
+        broken.append({"correspondence": "h_filterblock vs Model/Justice.v filter_block", "n": len(fres["disagreements"]), "first_disagreements": fres["disagreements"][:3]})
     quick = ctx.tier == "quick"
     n_scen = 96 if quick else 2400
     batches = 8 if quick else 16
@@ -315,6 +438,10 @@ def run(ctx):
         ctx.samples.append({"replay": {"seed": r0["seed"], "k": r0["k"], "flags": r0["flags"]}, "cheat": r0["cheat"], "style": r0.get("style"),
                             "first_block_broadcasts": [{"txid": t["txid"][:16], "inputs": [i["prev"][-12:] for i in t["inputs"]], "verify": t["verify"]} for t in (r0["blocks"][0].get("bcast", []) if r0["blocks"] else [])][:4]})
     found = False
+    for f in (fres["judge_fails"][:2] if fres else []):
+        found = True
+        ctx.violation("C06 fails on the implementation: " + f["why"], {"broken": broken, "failing_input": f,
+                      "replay_cmd": "printf '<case line>' | %s" % ctx.bin_path("h_filterblock")}, True, key="filter_block")
     for f in judge_fails[:3]:
         found = True
         ctx.violation("C06 fails on the implementation: " + f["why"], {"broken": broken, "failing_input": f,
